@@ -31,7 +31,7 @@ Definition run_followers : state :=
   do_recv_append 3 req2 (do_recv_ok 2 req2 (do_send_append 1 1 0 1 run_committed)).
 
 Definition run_crashed : state :=
-  do_crash 1 (do_client_append 1 7 run_followers).
+  do_crash 1 0 (do_client_append 1 7 run_followers).
 
 Ltac chk := vm_compute; repeat split; try lia; try discriminate;
             intuition (try lia; try discriminate; try congruence).
@@ -84,7 +84,7 @@ Qed.
 Lemma reachable_run_crashed : Reachable V3 run_crashed.
 Proof.
   unfold run_crashed.
-  eapply R_step; [| apply SCrash ].
+  eapply R_step; [| apply SCrash; apply Nat.le_0_l ].
   eapply R_step; [| apply SClientAppend; chk ].
   exact reachable_run_followers.
 Qed.
@@ -118,7 +118,7 @@ Qed.
 Lemma steps_committed_crashed : steps V3 run_committed run_crashed.
 Proof.
   unfold run_crashed, run_followers.
-  eapply steps_step; [| apply SCrash ].
+  eapply steps_step; [| apply SCrash; apply Nat.le_0_l ].
   eapply steps_step; [| apply SClientAppend; chk ].
   destruct (recv_append_refines V3 (do_recv_ok 2 req2 (do_send_append 1 1 0 1 run_committed)) 3 req2)
     as [Heq|Hst]; [chk | chk | |].
